@@ -12,8 +12,10 @@
 (* report: exactly what it serves.                                         *)
 (***************************************************************************)
 EXTENDS Naturals, FiniteSets
+\* lazyattr: an attribute of the class whose value is computed by code of the class the first time it is read (a cached property,
+\* or any other descriptor that has a getter only) - neither a method nor a property
 MemberKinds == {"imethod", "smethod", "cmethod", "prop_ro", "prop_rw", "prop_wo", "classattr", "instattr",
-                "helper_plain", "helper_exposed", "helper_exposed_callable", "nested_exposed_class"}
+                "helper_plain", "helper_exposed", "helper_exposed_callable", "nested_exposed_class", "lazyattr"}
 Wheres == {"own", "inherited"}
 \* member: @expose on the member; class_definer: @expose on the class that defines it; class_other: @expose only on another
 \* class of the hierarchy; forced: the exposure mark was put on by hand although the decorator refuses the name
